@@ -37,10 +37,11 @@ const (
 	KLockWait
 	KNote // logged, does not park
 	KDone
-	KEnv // pseudo: environment event (never sent by a task)
+	KEnv   // pseudo: environment event (never sent by a task)
+	KYield // forced pre-emption between two statements (instrumented build only)
 )
 
-var kindNames = [...]string{"start", "op-begin", "op-end", "get", "read", "write", "callback", "lock", "lockwait", "note", "done", "env"}
+var kindNames = [...]string{"start", "op-begin", "op-end", "get", "read", "write", "callback", "lock", "lockwait", "note", "done", "env", "yield"}
 
 func (k Kind) String() string { return kindNames[k] }
 
@@ -83,6 +84,10 @@ type TaskCtx struct {
 	Local   any // task-local record, read by the scheduler goroutine after the join
 	aborted bool
 	Panic   string // panic escaping the task body
+	// forced pre-emption (instrumented build): statements executed since the last
+	// yield and the count at which the next one is due (0: none)
+	yieldCount uint32
+	yieldAt    uint32
 }
 
 type Strategy struct {
@@ -106,6 +111,13 @@ type Sched struct {
 	changeAt []int
 	envLeft  int
 	envNext  int
+
+	// forced pre-emption: mean gap (in statements) between forced yields; 0 = off.
+	// Each task gets at most YieldBudget of them per phase.
+	YieldGap    int
+	YieldBudget int
+	yieldsLeft  []int
+	Yields      int
 
 	Trace      hasher // hash of (task,kind) sequence: the interleaving
 	Preempts   int    // switches away from a task that was still eligible
@@ -140,19 +152,32 @@ func curGoid() uint64 {
 
 // CurrentTask returns the TaskCtx of the calling goroutine, or nil when the caller
 // is not a task (set-up code, single-task checkers, reference runs).
+//
+// Exactly one task executes at any time and the scheduler publishes it in `running`
+// before waking it, so the common case is one atomic load. (The atomic store/load pair
+// only orders the scheduler goroutine before the task it wakes; the scheduler never
+// acquires anything from a task, so no happens-before edge between two tasks results.)
+// Only while a run is being torn down after a deadlock - tasks then unwind in
+// parallel - is the goroutine id consulted.
 func CurrentTask() *TaskCtx {
-	if activeTasks.Load() == 0 {
+	if tearingDown.Load() {
+		if activeTasks.Load() == 0 {
+			return nil
+		}
+		g := curGoid()
+		n := int(activeTasks.Load())
+		for i := 0; i < n; i++ {
+			if slotGid[i].Load() == g {
+				return slotTC[i]
+			}
+		}
 		return nil
 	}
-	g := curGoid()
-	n := int(activeTasks.Load())
-	for i := 0; i < n; i++ {
-		if slotGid[i].Load() == g {
-			return slotTC[i]
-		}
-	}
-	return nil
+	return running.Load()
 }
+
+var running atomic.Pointer[TaskCtx]
+var tearingDown atomic.Bool
 
 var activeTasks atomic.Int32
 
@@ -216,6 +241,21 @@ func (tc *TaskCtx) Park(k Kind, a, b uint32, s string) Reply {
 		runtime.Goexit()
 	}
 	return Reply{D: binary.LittleEndian.Uint32(rb[0:]), A: binary.LittleEndian.Uint32(rb[4:]), B: binary.LittleEndian.Uint32(rb[8:])}
+}
+
+// YieldPoint is called between any two statements of the engine (instrumented build).
+// It parks only when the scheduler has scheduled a forced pre-emption for this task.
+func (tc *TaskCtx) YieldPoint() {
+	if tc.yieldAt == 0 || tc.aborted {
+		return
+	}
+	tc.yieldCount++
+	if tc.yieldCount < tc.yieldAt {
+		return
+	}
+	tc.yieldCount = 0
+	rep := tc.Park(KYield, 0, 0, "")
+	tc.yieldAt = rep.A
 }
 
 // Note logs an event with the scheduler without yielding.
@@ -290,7 +330,7 @@ func (s *Sched) RunPhase(bodies []func(tc *TaskCtx), locals []any, nEnv int) []*
 		go func(tc *TaskCtx, body func(*TaskCtx)) {
 			defer wg.Done()
 			slotGid[tc.ID].Store(curGoid())
-			tc.Park(KStart, 0, 0, "")
+			tc.yieldAt = tc.Park(KStart, 0, 0, "").A
 			func() {
 				defer func() {
 					if r := recover(); r != nil {
@@ -316,9 +356,15 @@ func (s *Sched) RunPhase(bodies []func(tc *TaskCtx), locals []any, nEnv int) []*
 	s.envLeft = nEnv
 	s.envNext = 0
 	s.cur = -1
+	s.yieldsLeft = make([]int, n)
+	for i := range s.yieldsLeft {
+		s.yieldsLeft[i] = s.YieldBudget
+	}
 	s.initStrategy(n)
 	s.loop()
+	running.Store(nil)
 	if s.Deadlock || s.Overrun {
+		tearingDown.Store(true)
 		// tasks are stuck parked: closing the write ends of their wake pipes makes the
 		// blocked reads return EOF, upon which each task unwinds with Goexit.
 		for _, tc := range tcs {
@@ -327,6 +373,7 @@ func (s *Sched) RunPhase(bodies []func(tc *TaskCtx), locals []any, nEnv int) []*
 		}
 	}
 	wg.Wait()
+	tearingDown.Store(false)
 	activeTasks.Store(0)
 	syscall.Close(s.up[0])
 	syscall.Close(s.up[1])
@@ -480,12 +527,23 @@ func (s *Sched) loop() {
 		seq := s.NextSeq()
 		s.Trace.u64(uint64(c)<<8 | uint64(m.Kind))
 		rep := s.env.Resume(seq, m)
+		if m.Kind == KStart || m.Kind == KYield {
+			rep.A = 0
+			if s.YieldGap > 0 && s.yieldsLeft[c] > 0 {
+				s.yieldsLeft[c]--
+				rep.A = uint32(1 + s.tape.Draw(2*s.YieldGap))
+			}
+			if m.Kind == KYield {
+				s.Yields++
+			}
+		}
 		s.logf("%d t%d %s a=%d b=%d s=%q -> d=%d a=%d b=%d", seq, c, m.Kind, m.A, m.B, m.S, rep.D, rep.A, rep.B)
 		t.pending = nil
 		var rb [12]byte
 		binary.LittleEndian.PutUint32(rb[0:], rep.D)
 		binary.LittleEndian.PutUint32(rb[4:], rep.A)
 		binary.LittleEndian.PutUint32(rb[8:], rep.B)
+		running.Store(t.tc)
 		rawWrite(t.tc.down[1], rb[:])
 		// wait for the task's next parking message
 		for {
@@ -499,6 +557,7 @@ func (s *Sched) loop() {
 				s.env.Note(nseq, nm)
 				continue
 			}
+			running.Store(nil)
 			if nm.Kind == KDone {
 				t.done = true
 				s.epoch++
